@@ -139,15 +139,57 @@ OPTCALL_EXCEPTIONS = {
 
 # LOOPFRESH: locals that describe the current item of a loop and must be defined anew in every iteration.
 # "<function>" -> (properties, variables, why it matters)
-LOOPFRESH_TABLE = {
-    "canvas.CompositeCanvas.content_delta": (("C02", "C04"), ("row",), "the 'whole shard unchanged' memo of one shard would mark every later shard as unchanged"),
-    "canvas.TextCanvas.content": (("C02", "C01"), ("row", "i"), "a row would start with the runs of the previous row"),
-    "canvas.shards_trim_sides": (("C02",), ("new_cviews", "col"), "each shard's cviews are clipped by columns counted from that shard's left edge"),
-    "canvas.shards_trim_rows": (("C02",), ("new_cviews",), "a shard would inherit the cviews of the shard above"),
-    "canvas.shards_join": (("C02",), ("new_cviews",), "a joined shard would inherit the cviews of the shard above"),
-    "canvas.apply_text_layout": (("C03", "C17", "C01"), ("line", "linea", "linec"), "text, attribute and charset runs of a line would start with those of the previous line"),
-    "text_layout.StandardTextLayout._calculate_trimmed_segments": (("C03", "C01"), ("line", "pad_right", "trimmed", "end_off"), "the padding / ellipsis decision of an earlier, trimmed line would be applied to a later line that fits"),
-    "text_layout.calc_coords": (("C10", "C03"), ("x",), "the column of a position is counted from the start of its own line"),
-    "display.html_fragment.HtmlGenerator.draw_screen": (("C04",), ("col",), "the cursor column is matched against the column within the cursor's row"),
-    "display._raw_display_base.Screen.draw_screen": (("C04",), ("whitespace_at_end",), "the erase-to-end-of-line shortcut of one row would be applied to the next"),
-}
+LOOPFRESH_TABLE = {'canvas.CompositeCanvas.content_delta': (('C02', 'C04'),
+                                          (('row', ('$ = []', '$ = shard_body_row(_)', 'len($) != 1 or not isinstance($[0], int)', 'yield $')),),
+                                          "the 'whole shard unchanged' memo of one shard would mark every later shard as unchanged"),
+ 'canvas.TextCanvas.content': (('C02', 'C01'),
+                               (('row', ('$ = []', '$.append((_, _, _[_:_ + _]))', 'yield $')), ('i', ('$ += _', '$ = 0', '_.append((_, _, _[$:$ + _]))'))),
+                               'a row would start with the runs of the previous row'),
+ 'canvas.shards_trim_sides': (('C02',),
+                              (('new_cviews', ('$ = []', '$.append(_)', '_.append((_, $))', 'not $')),
+                               ('col',
+                                ('$ < _',
+                                 '$ = 0',
+                                 '$ = _',
+                                 '_ = $ + _',
+                                 '_ = cview_trim_cols(_, _ - $)',
+                                 '_ = cview_trim_left(_, _ - $)',
+                                 '_ or _ <= _ or $ >= _'))),
+                              "each shard's cviews are clipped by columns counted from that shard's left edge"),
+ 'canvas.shards_trim_rows': (('C02',),
+                             (('new_cviews', ('$ = []', '$.append(_)', '$.append(cview_trim_rows(_, _ - _))', '_.append((_ - _, $))', '_.append((_, $))')),),
+                             'a shard would inherit the cviews of the shard above'),
+ 'canvas.shards_join': (('C02',),
+                        (('new_cviews', ('$ = []', '$.extend(_)', '_.append((_, $))')),),
+                        'a joined shard would inherit the cviews of the shard above'),
+ 'canvas.apply_text_layout': (('C03', 'C17', 'C01'),
+                              (('line', ('$ = []', '$.append(_)', "$.append(b''.rjust(_.sc))", "_.append(b''.join($))")),
+                               ('linea', ('$ = []', '$.append((None, _.sc))', '_.append($)')),
+                               ('linec', ('$ = []', '$.append((None, _.sc))', '_.append($)', 'rle_join_modify($, _)'))),
+                              'text, attribute and charset runs of a line would start with those of the previous line'),
+ 'text_layout.StandardTextLayout._calculate_trimmed_segments': (('C03', 'C01'),
+                                                                (('line', ('$ += [(_, _)]', '$ += [(_, _, _)]', '$ = []', '_.append($)')),
+                                                                 ('pad_right',
+                                                                  ('$ = 0',
+                                                                   '_ += [($, _)]',
+                                                                   '_ = _ - _ - $',
+                                                                   '_, _, _, $ = calc_trim_text(_, _, _, 0, _ - _)')),
+                                                                 ('trimmed', ('$', '$ = False', '$ = True')),
+                                                                 ('end_off',
+                                                                  ('$ = _',
+                                                                   '_ != $',
+                                                                   '_ += [(_, $)]',
+                                                                   '_ += [(_, $, _)]',
+                                                                   '_ += [(_, _, $)]',
+                                                                   '_, $, _, _ = calc_trim_text(_, _, _, 0, _ - _)'))),
+                                                                'the padding / ellipsis decision of an earlier, trimmed line would be applied to a later line '
+                                                                'that fits'),
+ 'text_layout.calc_coords': (('C10', 'C03'),
+                             (('x', ('$ += _.sc', '$ += calc_width(_, _.offs, _)', '$ = 0', '_ = (_, ($, _))', 'return ($, _)')),),
+                             'the column of a position is counted from the start of its own line'),
+ 'display.html_fragment.HtmlGenerator.draw_screen': (('C04',),
+                                                     (('col', ('$ + _ > _', '$ += _', '$ = 0', '_ == _ and $ <= _', '_.append(html_span(_, _, _ - $))')),),
+                                                     "the cursor column is matched against the column within the cursor's row"),
+ 'display._raw_display_base.Screen.draw_screen': (('C04',),
+                                                  (('whitespace_at_end', ('$', '$ = False', '$ = True')),),
+                                                  'the erase-to-end-of-line shortcut of one row would be applied to the next')}
